@@ -36,7 +36,7 @@ namespace adm {
   // ---- isDefault ---- //
   bool AudioBlockFormatBinaural::isDefault(
       detail::ParameterTraits<Rtime>::tag) const {
-    return duration_ == boost::none;
+    return rtime_ == boost::none;
   }
 
   // ---- Setter ---- //
